@@ -24,11 +24,11 @@ git checkout -q -- .
 fi
 echo "demo on clean tree : $demo_clean"; echo "demo with change   : $demo_mut"; echo "suite with change  : $suite"
 # now against /repo
-cd /repo; [ -z "$(git status --porcelain --untracked-files=no)" ] || { echo "repo dirty"; exit 2; }
+cd ${MUTREPO:-/repo}; [ -z "$(git status --porcelain --untracked-files=no)" ] || { echo "repo dirty"; exit 2; }
 git apply $OUT/patch.diff || { echo "patch does not apply to /repo"; exit 2; }
 results="{"
 for c in $CHECKS; do
-  out=$(/verif/check $c ${TIER:-quick} 2>&1); code=$?
+  out=$(${MUTCHECK:-/verif/check} $c ${TIER:-quick} 2>&1); code=$?
   first=$(echo "$out" | grep -A1 "^VIOLATION" | grep "oracle=" | head -1 | cut -c1-300)
   echo "check $c ${TIER:-quick} -> exit $code ${first}"
   results="$results\"$c\": {\"exit\": $code, \"first_violation\": $(python3 -c 'import json,sys; print(json.dumps(sys.argv[1]))' "$first")},"
